@@ -31,6 +31,15 @@ def write_evidence(prop, ev):
     with open(tmp, 'w') as f:
         json.dump(ev, f, indent=1, sort_keys=True)
     os.replace(tmp, p)
+    try:
+        import jsonschema
+        sch = '/root/.vp/EVIDENCE.schema.json'
+        if os.path.exists(sch):
+            jsonschema.validate(ev, json.load(open(sch)))
+    except ImportError:
+        pass
+    except Exception as e:
+        log('HARNESS-ERROR evidence does not validate: %s' % str(e)[:300])
 
 
 def replay_path(prop, seed, tag=''):
